@@ -7,7 +7,7 @@ Two completely enumerated products of small menus:
                      ballots ranking only withdrawn candidates, empty ballots; a few 3-line sets) x multiplier patterns {1,2,7}
                      x ballot-id styles {none, '(b1)', '( b 1 )'}
   presentation product  names {plain, with spaces, with # /* */ inside quotes, UTF-8, apostrophe} x title/source/comment menus x
-                     [tie] {none, reversed, rotated} x [nick] {none, nicknames used in ballots/tie/withdrawn} x [droop ...] options x
+                     [tie] {none, reversed, rotated} x [nick] {none, nicknames used in ballots/tie/withdrawn} x [droop ...] options {none, one group, one group per option} x
                      layouts {line per ballot, token per line, one line, CRLF, tabs, blank lines} x comments {none, '#' at line ends,
                      /* */ between tokens, nested, '#' inside a block comment} x trailing junk after the last string x BOM (through a file)
   boundary           n in {255, 256, 257} with a ballot ranking candidate n (array typecode switch)
@@ -105,8 +105,9 @@ def lines_of(st, wd_style='minus', id_style=None, use_nick=False):
         u = st['ud']
         L.append(['[undeclared'] + [ref(c) for c in u[:-1]] + [ref(u[-1]) + ']'])
     if st.get('droop'):
-        d = st['droop']
-        L.append(['[droop'] + list(d[:-1]) + [d[-1] + ']'])
+        groups = [[x] for x in st['droop']] if st.get('droop_split') else [st['droop']]
+        for d in groups:
+            L.append(['[droop'] + list(d[:-1]) + [d[-1] + ']'])
     for i, (m, r) in enumerate(st['ballots']):
         if id_style == 'tight':
             head = ['(b%d)' % i]
@@ -257,10 +258,10 @@ class C15(Check):
             for n in (2, 3):
                 for tie in (None, tuple(range(n, 0, -1)), tuple(range(2, n + 1)) + (1,)):
                     for nick in (None, ['na', 'nb', 'nc'][:n]):
-                        for droop in (None, ['meek', 'precision=5', 'bogus']):
+                        for droop, dsplit in ((None, False), (['meek', 'precision=5', 'bogus'], False), (['meek', 'precision=5', 'bogus'], True)):
                             for wd in ((), (n,)):
                                 st = {'n': n, 's': 1, 'wd': list(wd), 'ud': [], 'names': names3[:n], 'title': title, 'source': src, 'comment': com,
-                                      'tie': tie, 'nick': nick, 'droop': droop,
+                                      'tie': tie, 'nick': nick, 'droop': droop, 'droop_split': dsplit,
                                       'ballots': [(2, tuple(range(1, n + 1))), (1, (2, 1)), (7, ((1, 2),) if n == 2 else ((1, 3), 2)), (1, (n,))]}
                                 for use_nick in ((False, True) if nick else (False,)):
                                     for wd_style in (('minus', 'option') if wd else ('minus',)):
